@@ -963,6 +963,8 @@ class Piece:
                     kind_ = "char" if lit.text.startswith("'") and lit.kind != "lifetime" else "str" if lit.text.startswith('"') else None
                     if kind_:
                         self._add(toks[k + 1].start, toks[k + 1].end, f"{toks[k + 1].text}_{kind_}", "T-STR", order=-99)
+                if toks[k].text == "." and toks[k + 1].text == "as_deref" and toks[k + 2].text == "(" and toks[k + 3].text == ")":
+                    self._add(toks[k + 1].start, toks[k + 1].end, "as_deref_str", "T-STR", order=-99)
                 # `.replace(P, R)`: a character, a string literal or an array of characters as the pattern
                 if toks[k].text == "." and toks[k + 1].text == "replace" and toks[k + 2].text == "(":
                     lit = toks[k + 3]
@@ -1759,6 +1761,51 @@ class Piece:
         return k
 
 
+def opaque_closures(text):
+    """number of closure literals in (rendered) text that carry no requires / ensures clause: what such a closure returns is unknown
+    to the verifier.  Closures whose value cannot matter to a caller's proof are not counted: the argument of map_err / ok_or_else /
+    unwrap_or_else / or_else / for_each / spawn."""
+    toks = lex(text)
+    n, k = 0, 0
+    IGN = ("map_err", "ok_or_else", "unwrap_or_else", "or_else", "for_each", "spawn", "inspect", "inspect_err")
+    while k < len(toks) - 1:
+        t = toks[k]
+        if t.text == "|" and k > 0 and (toks[k - 1].text in ("(", ",", "=", "move", "{", ";", "return", "[") or (toks[k - 1].text == ">" and toks[k - 2].text == "=")):
+            j = k + 1
+            if not (toks[j].text == "|" and toks[j].start == t.end):
+                depth = 0
+                while j < len(toks) and not (toks[j].text == "|" and depth == 0):
+                    if toks[j].text in OPEN:
+                        depth += 1
+                    elif toks[j].text in (")", "]", "}"):
+                        depth -= 1
+                        if depth < 0:
+                            break
+                    j += 1
+            if j >= len(toks) or toks[j].text != "|":
+                k += 1
+                continue
+            q = j + 1
+            if q + 1 < len(toks) and toks[q].text == "-" and toks[q + 1].text == ">":
+                q += 2
+                if toks[q].text == "(":
+                    q = match_close(toks, q) + 1
+                else:
+                    while q < len(toks) and toks[q].text not in ("{", "ensures", "requires"):
+                        q += 1
+            annotated = q < len(toks) and toks[q].text in ("ensures", "requires")
+            b = k - 1
+            if toks[b].text == "move":
+                b -= 1
+            callee = toks[b - 1].text if toks[b].text == "(" and b > 0 else ""
+            if not annotated and callee not in IGN:
+                n += 1
+            k = j + 1
+            continue
+        k += 1
+    return n
+
+
 def _model_path_exists(text, segs):
     """does the trusted text define the item a::b::NAME, module by module (`pub mod a { .. pub mod b { .. struct NAME ..`)?"""
     lo, hi = 0, len(text)
@@ -1807,6 +1854,13 @@ class Unit:
             self.baseline_attrs = None
         self.attrsigs = {}   # item -> the serde attributes the extraction dropped from it (T-ATTR): the JSON wire mapping of the type
         self.loopsigs = {}
+        self.opaque = {}        # verified item -> number of closures without a contract in its verified text
+        self.more_opaque = set()  # functions that have more of them than when the contracts were written
+        try:
+            import json as _json2
+            self.baseline_opaque = _json2.load(open(os.path.join(VERIF, "baseline_shapes.json"))).get("__opaque__", {}).get(name)
+        except Exception:
+            self.baseline_opaque = None
         self.loopless = set()   # functions that had loops when their contracts were written and have none now
         self.reshaped = set()   # functions whose loops have another control skeleton than the one their contracts were written for
         self.macro_fns = {}  # name -> call template (T-MACRO-FN: the macro body lives in a verified helper fn)
@@ -2124,6 +2178,18 @@ class Unit:
                     else:
                         p = part[1]
                         pre, segs, post = rendered[id(p)]
+                        if p.mode == "verify":
+                            okey_ = f"{p.relpath}::{p.spec}"
+                            try:
+                                self.opaque[okey_] = opaque_closures("".join(x[1] for x in segs))
+                            except Exception:
+                                self.opaque[okey_] = -1
+                            want_ = (self.baseline_opaque or {}).get(okey_)
+                            if want_ is not None and (self.opaque[okey_] < 0 or self.opaque[okey_] > want_):
+                                # a closure whose result the verifier knows nothing about has been added: a failed obligation of this
+                                # function may be nothing but that lack of knowledge
+                                for nm_ in find_fns(p.item):
+                                    self.more_opaque.add(nm_)
                         emit(f"// ---- {p.mode}: {p.relpath}::{p.spec} ----\n", kind="glue")
                         emit(pre, kind="glue")
                         for rule, txt, frm in segs:
